@@ -236,6 +236,33 @@ func BigFamily(r *rand.Rand, n int) []string {
 	return out
 }
 
+// LongRunFamily returns n digit runs of ONE length between 20 and 90 digits that differ from a common random base
+// in a single digit placed at the head, in the middle or at the tail (word-wise big-number arithmetic: a run split
+// into machine words is wrong only when the words that differ are the ones that overflow or are dropped).
+func LongRunFamily(r *rand.Rand, n int) []string {
+	l := 20 + r.IntN(71)
+	b := make([]byte, l)
+	for i := range b {
+		b[i] = byte('0' + r.IntN(10))
+	}
+	b[0] = byte('1' + r.IntN(8))
+	out := []string{string(b)}
+	for len(out) < n {
+		c := append([]byte(nil), b...)
+		pos := []int{0, 1, l / 2, l - 20, l - 19, l - 1}[r.IntN(6)]
+		if pos < 0 {
+			pos = 0
+		}
+		if c[pos] == '9' {
+			c[pos] = '8'
+		} else {
+			c[pos]++
+		}
+		out = append(out, string(c))
+	}
+	return out
+}
+
 func decInc(d string) string {
 	b := []byte(d)
 	for i := len(b) - 1; i >= 0; i-- {
